@@ -68,7 +68,7 @@ ASSUMPTIONS = ['a call not answered within 120 s (normal < 1 s) and again on an 
 MUTS = ['none', 'none', 'none', 'tuple_len', 'layer_type_unknown', 'layer_type_case', 'integrator_unknown', 'solve_for_list',
         'solve_for_unknown', 'solve_for_too_many', 'solve_for_upper', 'solve_for_none', 'solve_for_empty', 'array_len',
         'noncontiguous', 'dtype', 'few_slices_in_layer', 'upper_radius_mismatch', 'too_few_total', 'degree', 'bad_value',
-        'bad_value', 'bad_value', 'bad_scalar', 'duplicate_radii', 'decreasing_radii', 'step_budget', 'ram_budget',
+        'bad_value', 'bad_value', 'bad_scalar', 'bad_scalar', 'bad_scalar', 'duplicate_radii', 'decreasing_radii', 'step_budget', 'ram_budget',
         'rtol_extreme', 'atol_extreme', 'expected_size', 'max_step']
 
 _worker = None
@@ -150,6 +150,15 @@ def _ask(case, timeout):
         _buf += chunk
 
 
+def _trigger(mut, pm):
+    if mut == 'bad_scalar':
+        return '%s=%s' % (['frequency', 'bulk_density'][pm % 2], ['nan', '0', '-1', 'inf', '1e300', '1e-300'][(pm // 2) % 6])
+    if mut == 'bad_value':
+        return '%s[%s]=%s' % (['radius', 'density', 'gravity', 'bulk', 'shear'][pm % 5], ['first', 'middle', 'last'][pm % 3],
+                              ['nan', '0', '-1', 'inf', '-inf', '1e300', '1e-300'][(pm // 5) % 7])
+    return mut
+
+
 def strategy(tier):
     base = rc.stack_strategy(1, 5, surface='any')
     return st.fixed_dictionaries({
@@ -183,6 +192,10 @@ def fixed_cases(tier):
     w = _witness('bad_value', ['solid', True, False])
     w['mut']['p'] = 129                     # shear[0] = -inf
     out.append(w)
+    for pp in (3, 2, 0, 5):                 # bulk_density = 0, frequency = 0, frequency = NaN, bulk_density = -1
+        w = _witness('bad_scalar', ['solid', True, False])
+        w['mut']['p'] = pp
+        out.append(w)
     return out
 
 
@@ -264,8 +277,13 @@ def evaluate(case):
         extreme = 'near_range_limit'          # 1e300 / 1e-300: the in-place scaling overflows or goes subnormal
     elif (mut == 'bad_value' and (pm // 5) % 7 in (3, 4)) or (mut == 'bad_scalar' and (pm // 2) % 6 == 3):
         extreme = 'infinite'                  # +-inf: inf / scale * scale in complex arithmetic gives NaN parts
+    sig_in = {'clause': 'inputs_intact', 'site': site, 'nondim': nondim, 'extreme': extreme}
+    if site == 'early_raise:nondim_nan':
+        # which argument made the non-dimensionalisation produce NaNs (the known finding lists the triggers that do so on
+        # the pinned tree; a new trigger - e.g. a value that used to be rejected before any scaling - is still reported)
+        sig_in['trigger'] = _trigger(mut, pm)
     for name, dev in rep['input_dev'].items():
-        c.check(dev <= ULP_LIMIT, {'clause': 'inputs_intact', 'site': site, 'nondim': nondim, 'extreme': extreme},
+        c.check(dev <= ULP_LIMIT, sig_in,
                 'array %s changed by %.3g ulp across the call (outcome %s %s %s)' % (name, dev, outcome, rep.get('exc_type', ''), rep.get('exc_msg', '')[:120]))
     if outcome == 'raised':
         et = rep.get('exc_type', '')
